@@ -714,3 +714,265 @@ Proof.
     destruct (String.eqb n "b"); [inversion H; reflexivity | discriminate].
   - repeat split; vm_compute; reflexivity.
 Qed.
+
+(** ---- non-vacuity of the hypotheses (audit) ---- *)
+Definition c5_g : cnet :=
+  match Net.compile c5_src ["d"%string] with
+  | Ok g => g
+  | Err _ => {| c_nodes := []; c_edges := []; c_outputs := []; c_observed := [] |}
+  end.
+Definition c5_vt : value := VApp (OpUser "t"%string) [] [("batch_size"%string, VBatch); ("random_state"%string, VRng)].
+Definition c5_vy : value := VApp (OpUser "y"%string) [c5_vt] [("batch_size"%string, VBatch); ("random_state"%string, VRng)].
+Definition c5_vs : value := VApp (OpUser "s"%string) [c5_vy] [].
+(* batch [[1];[2]] of node n stands for the (symbolic) value the executor computes for n; other batches by c5_enc *)
+Definition c5_denc (n : name) (b : batch) : value :=
+  if list_eq_dec (list_eq_dec N.eq_dec) b c5_b0 then (if String.eqb n "y" then c5_vy else c5_vs) else c5_enc b.
+Definition c5_ddec (_ : name) (_ : value) : batch := c5_b0.
+Definition c5_orc (_ : name) (_ : nat) : nat := 0.
+Definition c5_ds0 : drun_state :=
+  {| dr_net := c5_g; dr_pool := empty_dpool ["y"; "s"]%string; dr_cache := empty_cache |}.
+
+Ltac c5_repr :=
+  let n := fresh "n" in let d := fresh "d" in let v := fresh "v" in
+  let Hin := fresh "Hin" in let Hl := fresh "Hl" in
+  intros n d v Hin Hl; cbn in Hin; destruct Hin as [Hin|[Hin|[]]]; inversion Hin; subst;
+  vm_compute in Hl; inversion Hl; subst; split; vm_compute; reflexivity.
+
+(** hypotheses of C05_on_disk_pool_run (and of _contiguity with k = 0, _crash_prefix_batches): the
+    MA2-like net over a disk pool with the stores of the simulator and the summary, 2 rows per batch,
+    batches 0 and 1; both steps succeed, so [run_all] is not the trivial [True] of a failed step *)
+Example C05_on_disk_pool_run_nonvacuous :
+  0 < 2
+  /\ dp_good 2 c5_orc (dr_pool c5_ds0) /\ dp_reach 2 c5_orc (dr_pool c5_ds0) /\ CacheOK (dr_cache c5_ds0)
+  /\ part_inv 2 c5_ds0 0
+  /\ run_all 2 c5_orc c5_denc c5_ddec (repr_at 2 c5_denc c5_ddec) c5_ds0 (seqn 2)
+  /\ run_all 2 c5_orc c5_denc c5_ddec (repr_at 2 c5_denc c5_ddec) c5_ds0 (seq 0 2)
+  /\ (exists ds1 obs1, run_batches_disk 2 c5_orc c5_denc c5_ddec c5_ds0 (seq 0 2) = Ok (ds1, obs1)
+        /\ map (map snd) (map fst obs1) = [[VApp (OpUser "d"%string) [c5_vs] [("observed"%string, VApp OpTuple [VApp (OpUser "s"%string) [VConst 7] []] [])]; c5_vs; c5_vy];
+                                           [VApp (OpUser "d"%string) [c5_vs] [("observed"%string, VApp OpTuple [VApp (OpUser "s"%string) [VConst 7] []] [])]; c5_vs; c5_vy]]).
+Proof.
+  assert (R : run_all 2 c5_orc c5_denc c5_ddec (repr_at 2 c5_denc c5_ddec) c5_ds0 [0; 1]).
+  { cbn [run_all].
+    destruct (step_batch_disk 2 c5_orc c5_denc c5_ddec c5_ds0 0) as [[[ds1 out] log]|e] eqn:E; [|exact I].
+    vm_compute in E. inversion E; subst; clear E. split; [unfold repr_at; c5_repr|].
+    match goal with |- match ?s with _ => _ end => destruct s as [[[ds2 out2] log2]|e] eqn:E2; [|exact I] end.
+    vm_compute in E2. inversion E2; subst; clear E2. split; [unfold repr_at; c5_repr | exact I]. }
+  split; [repeat constructor|]. split; [apply empty_dpool_good|]. split; [apply empty_dpool_reach|].
+  split; [apply CacheOK_empty|]. split; [intros n d _ _; apply Nat.le_0_l|].
+  split; [exact R|]. split; [exact R|].
+  eexists. eexists. split; [vm_compute; reflexivity|]. vm_compute. reflexivity.
+Qed.
+
+(** hypotheses of C05_on_disk_pool_crash_restart / _crash_prefix (run 1 over batch 0, flush of all
+    stores, run 2 of the same handler over batch 1) and of C05_on_disk_pool_two_runs (run 1 over batch
+    0, flush and close+open of all stores, run 2 from batch 0 again over batches 0 and 1: batch 0 is
+    read from the files, only the discrepancy and the observed side run) *)
+Example C05_on_disk_pool_restart_nonvacuous :
+  exists ds1 obs1 ds3 obs2 ds3' obs2',
+    run_all 2 c5_orc c5_denc c5_ddec (repr_at 2 c5_denc c5_ddec) c5_ds0 (seq 0 1)
+    /\ run_batches_disk 2 c5_orc c5_denc c5_ddec c5_ds0 (seq 0 1) = Ok (ds1, obs1)
+    /\ (let ds2 := {| dr_net := dr_net ds1; dr_pool := dp_all 2 c5_orc (dr_pool ds1) [PFlush]; dr_cache := dr_cache ds1 |} in
+        run_all 2 c5_orc c5_denc c5_ddec (repr_at 2 c5_denc c5_ddec) ds2 (seq 1 1)
+        /\ run_batches_disk 2 c5_orc c5_denc c5_ddec ds2 (seq 1 1) = Ok (ds3, obs2)
+        /\ map snd obs2 = [["_s_observed"; "_d_observed"; "t"; "y"; "s"; "d"]%string])
+    /\ neutral [PFlush; PReopen]
+    /\ (let ds2 := {| dr_net := dr_net ds1; dr_pool := dp_all 2 c5_orc (dr_pool ds1) [PFlush; PReopen]; dr_cache := dr_cache ds1 |} in
+        run_all 2 c5_orc c5_denc c5_ddec (repr_at 2 c5_denc c5_ddec) ds2 (seq 0 2)
+        /\ run_batches_disk 2 c5_orc c5_denc c5_ddec ds2 (seq 0 2) = Ok (ds3', obs2')
+        /\ map snd obs2' = [["_s_observed"; "_d_observed"; "d"]; ["_s_observed"; "_d_observed"; "t"; "y"; "s"; "d"]]%string).
+Proof.
+  do 6 eexists.
+  split.
+  { cbn [run_all seq].
+    destruct (step_batch_disk 2 c5_orc c5_denc c5_ddec c5_ds0 0) as [[[ds1 out] log]|e] eqn:E; [|exact I].
+    vm_compute in E. inversion E; subst; clear E. split; [unfold repr_at; c5_repr | exact I]. }
+  split; [vm_compute; reflexivity|].
+  split.
+  { cbv zeta. split; [|split; [vm_compute; reflexivity | vm_compute; reflexivity]].
+    cbn [run_all seq].
+    match goal with |- match ?s with _ => _ end => destruct s as [[[ds2 out2] log2]|e] eqn:E2; [|exact I] end.
+    vm_compute in E2. inversion E2; subst; clear E2. split; [unfold repr_at; c5_repr | exact I]. }
+  split; [repeat constructor|].
+  cbv zeta. split; [|split; [vm_compute; reflexivity | vm_compute; reflexivity]].
+  cbn [run_all seq].
+  match goal with |- match ?s with _ => _ end => destruct s as [[[ds2 out2] log2]|e] eqn:E2; [|exact I] end.
+  vm_compute in E2. inversion E2; subst; clear E2. split; [unfold repr_at; c5_repr |].
+  match goal with |- match ?s with _ => _ end => destruct s as [[[ds4 out4] log4]|e] eqn:E4; [|exact I] end.
+  vm_compute in E4. inversion E4; subst; clear E4. split; [unfold repr_at; c5_repr | exact I].
+Qed.
+
+(** hypothesis of C05_reuse_changes_no_result: the loaded MA2-like net (runtime and observed data
+    loaded, "y" requested), and the same net with the simulator's node replaced by the value the
+    executor computes for it (which is its meaning, by C03's execute_sound) *)
+Definition c5_gl : cnet := load [("y"%string, None)] c5_g.
+Definition c5_gl' : cnet := add_node "y"%string {| c_out := Some c5_vy; c_op := None |} c5_gl.
+Example C05_reuse_changes_no_result_nonvacuous :
+  supplied c5_gl c5_gl'
+  /\ lookup "y"%string (c_nodes c5_gl) = Some {| c_out := None; c_op := Some (OpUser "y"%string) |}
+  /\ (forall v, Den c5_gl' "d"%string v <-> Den c5_gl "d"%string v).
+Proof.
+  assert (S : supplied c5_gl c5_gl').
+  { split; [reflexivity|]. intros n. destruct (string_dec "y"%string n) as [<-|Hne].
+    - right. exists {| c_out := None; c_op := Some (OpUser "y"%string) |}, c5_vy.
+      split; [vm_compute; reflexivity|]. split; [apply lookup_add_node_same|].
+      destruct (execute c5_gl empty_cache) as [[[out log] c']|e] eqn:E; [|vm_compute in E; discriminate].
+      destruct (execute_sound _ _ _ _ _ CacheOK_empty E) as [Hd _]. apply Hd.
+      vm_compute in E. inversion E; subst. cbn. auto 10.
+    - left. unfold c5_gl'. now apply lookup_add_node_other. }
+  split; [exact S|]. split; [vm_compute; reflexivity|].
+  intros v. exact (C05_reuse_changes_no_result _ _ S "d"%string v).
+Qed.
+
+(** hypotheses of C05_held_store_never_runs: the pool holds the simulator's batch and lacks the
+    summary's; the executor succeeds and runs the summary, not the simulator *)
+Example C05_held_store_never_runs_nonvacuous :
+  let pool := [("y"%string, Some c5_vy); ("s"%string, None)] in
+  NoDup (map fst pool) /\ In ("y"%string, Some c5_vy) pool /\ has "y"%string (c_nodes c5_g) = true
+  /\ CacheOK empty_cache
+  /\ exists out cache',
+       execute (load pool c5_g) empty_cache = Ok (out, ["_s_observed"; "_d_observed"; "s"; "d"]%string, cache').
+Proof.
+  cbv zeta. split; [repeat constructor; cbn; intuition discriminate|]. split; [left; reflexivity|].
+  split; [vm_compute; reflexivity|]. split; [apply CacheOK_empty|].
+  do 2 eexists. vm_compute. reflexivity.
+Qed.
+
+(** hypotheses of C05_tobytes_C_is_logical_order, C05_stored_batch_reads_back and C05_store_ok_sound
+    on the batches of C05_layout_example (index [1; 2] of the Fortran-ordered batch, second in the file) *)
+Definition c5_nd_c : ndarray :=
+  {| nd_shape := [2; 3]%nat; nd_strides := [3; 1]%Z; nd_offset := 0%Z; nd_buf := [1; 2; 3; 4; 5; 6]%Z |}.
+Definition c5_nd_f : ndarray :=
+  {| nd_shape := [2; 3]%nat; nd_strides := [1; 2]%Z; nd_offset := 0%Z; nd_buf := [11; 14; 12; 15; 13; 16]%Z |}.
+Definition c5_so : store_obs :=
+  {| so_batches := [c5_nd_c; c5_nd_f]; so_file := None; so_read := [[1; 2; 3; 4; 5; 6]; [11; 12; 13; 14; 15; 16]]%Z |}.
+Example C05_layout_nonvacuous :
+  valid [1; 2] (nd_shape c5_nd_f)
+  /\ (forall b, In b [c5_nd_c; c5_nd_f] -> nd_shape b = [2; 3])
+  /\ nth_error [c5_nd_c; c5_nd_f] 1 = Some c5_nd_f
+  /\ read_back (append_all [c5_nd_c; c5_nd_f]) [2; 3] 1 [1; 2] = Some 16%Z
+  /\ elem c5_nd_f [1; 2] = Some 16%Z
+  /\ store_ok c5_so = true
+  /\ nth_error (so_batches c5_so) 1 = Some c5_nd_f
+  /\ nth_error (so_read c5_so) 1 = Some [11; 12; 13; 14; 15; 16]%Z.
+Proof.
+  split; [repeat constructor|].
+  split; [intros b [<-|[<-|[]]]; reflexivity|].
+  repeat split; vm_compute; reflexivity.
+Qed.
+
+(** hypotheses of the single-store on-disk theorems (C05_on_disk_flush_loads, _reopen_restores,
+    _get_no_error, _crash_prefix, _held_add_is_identity, C05_later_run_callbacks_touch_nothing,
+    C05_pool_writes_are_appends with a non-empty store) on the history of C05_on_disk_example *)
+Definition c5_pops1 : list pop := [PAdd 0 c5_b0; PGet 0; PAdd 1 c5_b1].
+Example C05_on_disk_store_nonvacuous :
+  wfpool 2 c5_pops1 /\ 0 < List.length (added 0 c5_pops1)
+  /\ (let '(m, f, _) := pool_run 2 (fun _ => 0) 1 fresh_mem empty_file c5_pops1 in 1 < m_nb m)
+  /\ (let '(_, f, _) := pool_run 2 (fun _ => 0) 1 fresh_mem empty_file (c5_pops1 ++ [PFlush]) in
+      f_buf f = [] /\ loads (f_disk f) = Some (flat (added 0 c5_pops1)))
+  /\ wfpool 2 c5_pops
+  /\ (let pre := [Query; Set_ 0 true c5_b0; Query; Read 0; Query; Set_ 1 true c5_b1] in
+      compile [] c5_pops
+      = pre ++ Flush :: [Query; Query; Read 1] ++ Reopen :: [Query; Query; Set_ 2 true c5_bx; Pickle; Query; Read 2; Query]
+      /\ is_flush Flush = true /\ 0 < List.length (spec (pre ++ [Flush])))
+  /\ 0 < List.length [c5_b0; c5_b1]
+  /\ 1 + List.length [c5_bx] <= List.length [c5_b0; c5_b1]
+  /\ contig (List.length [c5_b0]) [PAdd 0 c5_bx; PGet 1; PAdd 1 c5_b1; PFlush; PAdd 2 c5_bx].
+Proof.
+  split; [repeat constructor|]. split; [vm_compute; repeat constructor|].
+  split; [vm_compute; repeat constructor|]. split; [vm_compute; split; reflexivity|].
+  split; [repeat constructor|].
+  split; [cbv zeta; split; [vm_compute; reflexivity | split; [reflexivity | vm_compute; repeat constructor]]|].
+  split; [vm_compute; repeat constructor|]. split; [vm_compute; repeat constructor|].
+  cbn. repeat split; repeat constructor.
+Qed.
+
+(** hypotheses of C05_on_disk_pool_get_batch and C05_on_disk_pool_add_batch on a pool that holds
+    batches: batch 0 went to both stores, batch 1 goes to "a" (its next index) *)
+Example C05_on_disk_pool_add_batch_nonvacuous :
+  let o := fun (_ : name) (_ : nat) => 0 in
+  let dp0 := empty_dpool ["a"; "b"]%string in
+  let out0 := [("a", c5_b0); ("b", c5_b1)]%string in
+  let out1 := [("a"%string, c5_bx)] in
+  let dp1 := disk_add_batch 2 o dp0 out0 0 in
+  dp_good 2 o dp1 /\ add_sized 2 dp1 out1 /\ add_contig 2 dp1 out1 1
+  /\ map (fun nd : name * dstore => List.length (ds_batches 2 (snd nd))) (dp_stores dp1) = [1; 1].
+Proof.
+  cbv zeta. split.
+  - apply (C05_on_disk_pool_add_batch 2 (Nat.lt_0_succ 1) (fun _ _ => 0) (fun _ => c5_enc)).
+    + apply empty_dpool_good.
+    + intros n d b _ H. cbn in H.
+      destruct (String.eqb n "a"); [inversion H; reflexivity|].
+      destruct (String.eqb n "b"); [inversion H; reflexivity | discriminate].
+    + intros n d b _ _. apply Nat.le_0_l.
+  - split; [|split; [|vm_compute; reflexivity]].
+    + intros n d b _ H. cbn in H. destruct (String.eqb n "a"); [inversion H; reflexivity | discriminate].
+    + intros n d b Hin H. vm_compute in Hin. destruct Hin as [Hin|[Hin|[]]]; inversion Hin; subst;
+        vm_compute in H; try discriminate; vm_compute; repeat constructor.
+Qed.
+
+(** the Prop-level hypotheses of C05_generate_with_pool_is_pool_free / _equals_fresh (the boolean
+    checks of C05_end_to_end_example through their soundness lemmas), with an output in both runs *)
+Example C05_generate_with_pool_nonvacuous :
+  let P := [("y"%string, c5_vy); ("s"%string, c5_vs)] in
+  wfsrc c5_src /\ NoDup (map fst P) /\ (forall k, In k (map fst P) -> ~ In k inames)
+  /\ pool_consistent c5_src P
+  /\ exists out log out0 log0 v,
+       generate c5_src ["d"%string] P = Ok (out, log) /\ generate c5_src ["d"%string] [] = Ok (out0, log0)
+       /\ In ("d"%string, v) out /\ In ("d"%string, v) out0 /\ has "d"%string (s_nodes c5_src) = true
+       /\ den_name c5_src [] "d"%string = Some v.
+Proof.
+  cbv zeta.
+  assert (N : NoDup (map fst [("y"%string, c5_vy); ("s"%string, c5_vs)]))
+    by (repeat constructor; cbn; intuition discriminate).
+  split; [apply wfsrc_b_sound; vm_compute; reflexivity|]. split; [exact N|].
+  split; [intros k [<-|[<-|[]]]; vm_compute; intuition discriminate|].
+  split; [apply pool_consistent_b_sound; [exact N | vm_compute; reflexivity]|].
+  do 5 eexists. split; [vm_compute; reflexivity|]. split; [vm_compute; reflexivity|].
+  split; [left; reflexivity|]. split; [left; reflexivity|]. split; vm_compute; reflexivity.
+Qed.
+
+(** the Prop-level hypotheses of the executor-cache and history theorems (wf_base through its checker)
+    and of C05_rerun_after_pool_change: a first run over batches 0, 1 with the pool of the simulator
+    and the summary, then the same handler (grown output set, filled order cache) over another pool
+    that holds only a store of the summary; the second run succeeds (the simulator, by now in the
+    handler's output set and without a store, runs again; the held summary does not) *)
+Example C05_rerun_after_pool_change_nonvacuous :
+  let pl := {| stores := [("y"%string, None); ("s"%string, None)]; pl_batch_size := None; pl_seed := None |} in
+  let pl' := {| stores := [("s"%string, None)]; pl_batch_size := None; pl_seed := None |} in
+  wf_base c5_g /\ NoDup (map fst (stores pl)) /\ NoDup (map fst (stores pl'))
+  /\ exists s1 obs1,
+       run_batches {| rs_net := c5_g; rs_pool := pl; rs_cache := empty_cache |} [0; 1] = Ok (s1, obs1)
+       /\ List.length (ec_orders (rs_cache s1)) = 1
+       /\ match run_batches {| rs_net := rs_net s1; rs_pool := pl'; rs_cache := rs_cache s1 |} [0; 0] with
+          | Ok (_, obs2) => map snd obs2 = [["_s_observed"; "_d_observed"; "t"; "y"; "s"; "d"]; ["_s_observed"; "_d_observed"; "t"; "y"; "d"]]%string
+          | Err _ => False
+          end.
+Proof.
+  cbv zeta. split; [apply wf_base_b_sound; vm_compute; reflexivity|].
+  split; [repeat constructor; cbn; intuition discriminate|].
+  split; [repeat constructor; cbn; intuition|].
+  do 2 eexists. split; [vm_compute; reflexivity|]. split; vm_compute; reflexivity.
+Qed.
+
+(** hypotheses of C05_on_disk_pool_run_general: contiguity and representability at every step of a
+    run whose steps succeed (from C05_on_disk_pool_run_nonvacuous by C05_on_disk_pool_contiguity) *)
+Example C05_on_disk_pool_run_general_nonvacuous :
+  dp_good 2 c5_orc (dr_pool c5_ds0)
+  /\ run_all 2 c5_orc c5_denc c5_ddec (ok_at 2 c5_denc c5_ddec) c5_ds0 (seq 0 2).
+Proof.
+  destruct C05_on_disk_pool_run_nonvacuous as (Hbs & G & _ & C & PI & _ & R & _).
+  split; [exact G|].
+  exact (proj1 (C05_on_disk_pool_contiguity 2 Hbs c5_orc c5_denc c5_ddec 2 0 c5_ds0 G C PI R)).
+Qed.
+
+(** hypothesis of C05_store_abstraction_injective: the encoding of C05_on_disk_example is injective *)
+Example C05_store_abstraction_injective_nonvacuous : forall a b, c5_enc a = c5_enc b -> a = b.
+Proof.
+  assert (M : forall (A B : Type) (f : A -> B), (forall x y, f x = f y -> x = y) ->
+              forall l1 l2, map f l1 = map f l2 -> l1 = l2).
+  { intros A B f Hf. induction l1 as [|x r IH]; intros [|y s] H; try discriminate; [reflexivity|].
+    cbn in H. inversion H. f_equal; [now apply Hf | now apply IH]. }
+  intros a b H. unfold c5_enc in H. inversion H as [H1]. revert H1. apply M.
+  intros x y Hxy. inversion Hxy as [H2]. revert H2. apply M.
+  intros c d Hcd. inversion Hcd as [H3]. now apply N2Z.inj.
+Qed.
